@@ -107,7 +107,17 @@ func ChildMain(args []string) {
 	out.Flush()
 }
 
-type DelayCfg struct{ Seed, US, P int }
+// DelayCfg: environment of the delay overlay.  Site = 0: every instrumented site delays with probability P %
+// by up to US microseconds; Site = n+1: only site n delays, always, by US microseconds (targeted).
+type DelayCfg struct{ Seed, US, P, Site int }
+
+func (d DelayCfg) String() string { return fmt.Sprintf("%d:%d:%d:%d", d.Seed, d.US, d.P, d.Site) }
+
+func ParseDelayCfg(s string) DelayCfg {
+	var d DelayCfg
+	fmt.Sscanf(s, "%d:%d:%d:%d", &d.Seed, &d.US, &d.P, &d.Site)
+	return d
+}
 
 type BatchRes struct {
 	Outs   []ChildOut
@@ -123,6 +133,9 @@ func RunBatch(bin string, d *DelayCfg, par int, jobs []string, limit time.Durati
 	if d != nil {
 		cmd.Env = append(cmd.Env, fmt.Sprintf("VERIF_DELAY_SEED=%d", d.Seed), fmt.Sprintf("VERIF_DELAY_US=%d", d.US),
 			fmt.Sprintf("VERIF_DELAY_P=%d", d.P))
+		if d.Site > 0 {
+			cmd.Env = append(cmd.Env, fmt.Sprintf("VERIF_DELAY_SITE=%d", d.Site-1))
+		}
 	}
 	cmd.Stdin = strings.NewReader(strings.Join(jobs, "\n") + "\n")
 	var so, se bytes.Buffer
@@ -164,6 +177,20 @@ func RunBatch(bin string, d *DelayCfg, par int, jobs []string, limit time.Durati
 		res.Crash = "child exited: " + werr.Error() + " " + Trunc(strings.ReplaceAll(st, "\n", " | "), 400)
 	}
 	return res
+}
+
+// DelaySites lists the instrumented sites of the current connection.go (same numbering as in the child).
+func DelaySites() []DelaySite {
+	dir, err := os.MkdirTemp(filepath.Dir(SelfExe()), "sites-")
+	if err != nil {
+		return nil
+	}
+	defer os.RemoveAll(dir)
+	_, sites, err := GenDelayOverlay(ServiceDir(), dir)
+	if err != nil {
+		return nil
+	}
+	return sites
 }
 
 // SelfExe: this binary.
